@@ -22,15 +22,15 @@ LEVEL_TEXT = ('Theorems (Props/C08.v): read(write(f)) presents exactly the conte
               'the identity on 1970001..2069366 (C08_date_roundtrip), hours survive /10000 and rescaling (C08_hour_roundtrip). Tie T: Gen/Camx.v. '
               'Tie H: library writer bytes == spec encoder on the model\'s input (incl. the writer\'s own end-date derivation), library reader == reader model. '
               'LATERAL BOUNDARY files (Model/Lbdy.v): C08_lbdy_read_write, C08_lbdy_rewrite_idempotent, C08_lbdy_begin_flags, C08_lbdy_end_flags at full '
-              'strength (the reader as repaired by fe376a5); the re-write at a year end is refuted with a vm_compute witness that replays on the library '
-              '(C08_lbdy_year_end_rewrite_refuted = finding lb-enddate-year-rollover). Tie H: constructor WL of Corr/C08.v (in-memory '
+              'strength (the reader as repaired by fe376a5); the writers\' own end-date derivation with the day-of-year carry of 4389526 / a9b6e29 is the '
+              'specification at every valid date and hour (C08_end_date_is_spec, C08_end_date_reproduces_header; Model/YearEnd.v). Tie H: constructor WL of Corr/C08.v (in-memory '
               'file -> writer (generated edge definitions, derived end dates) -> reader -> writer, every stage against the model). '
               'ONE3D FAMILY (one3d / humidity / vertical_diffusivity; Model/One3d.v, Proofs/One3dProofs.v; Memmap reader model with the translated record_items and time_steps expressions, reshapes / first-stamp-change / memmap size rules hand-modelled): C08_one3d_read_write, C08_one3d_rewrite_idempotent, C08_one3d_time_flags; tie H: constructor OD8 '
               '(ncf2one3d output == o_enc, byte-identical re-write). '
               'TEMPERATURE and HEIGHT/PRESSURE (Model/TempHp.v, Proofs/TempHpProofs.v; layered record files over the One3d codec; both Memmap readers hand-modelled incl. the for-loop fall-through, the lazy reshapes and the marker check): C08_temperature_read_write, C08_temperature_rewrite_idempotent, C08_heightpres_read_write, '
               'C08_heightpres_rewrite_idempotent; tie H: constructors TD8 / HD8 (writer output == spec encoding, byte-identical re-write).')
 LEVEL_NOTE = ('Trusted: Coq kernel+vm_compute, py2coq, harness. Met formats and landuse are held by correspondence and generic record '
-              'framing theorems only. Known findings: writer-derived end date at a year end; single-step met files; 1x1 wind grids.')
+              'framing theorems only. Known findings: single-step met files; 1x1 wind grids; land-use sniffing.')
 TECHNIQUE = 'Coq proof (codec/reader round trip, date arithmetic over translated expressions) + differential correspondence'
 
 
